@@ -339,7 +339,12 @@ impl super::MainState {
             }
         } else if validate_channel(mask).is_ok() {
             // if channel
-            if let Some(channel) = state.channels.get(mask) {
+            // secret channel is visible only for its members
+            if let Some(channel) = state
+                .channels
+                .get(mask)
+                .filter(|ch| !ch.modes.secret || ch.users.contains_key(user_nick))
+            {
                 for (u, chum) in &channel.users {
                     self.send_who_info(
                         conn_state,
